@@ -1,6 +1,6 @@
 (* Props/C01.v — C01: tunnelled TCP payload is delivered intact, in order, to the right peer. *)
 From Coq Require Import List NArith Ascii Bool Lia.
-From SV Require Import Model.StreamQuiet Proofs.Stream_quiet Model.StreamDrain Proofs.Stream_drain Lib.Bytes Model.Wire Model.Chan Model.Stream
+From SV Require Import Model.StreamQuiet Proofs.Stream_quiet Model.StreamDrain Proofs.Stream_drain Proofs.Stream_drain_clean Lib.Bytes Model.Wire Model.Chan Model.Stream
   Proofs.Stream_basic Proofs.Stream_wrap Proofs.Stream_cb Proofs.Stream_reg Proofs.Stream_view
   Proofs.Stream_flow Proofs.Stream_props Gen.Consts.
 Import ListNotations.
@@ -53,8 +53,12 @@ Print Assumptions c01_callback_conserves.
 
 (* The last sentence of C01 ("if neither endpoint aborts, every byte written before
    the writer closed is eventually delivered") is a liveness statement over fair
-   schedules.  It is NOT proved; it is kept here as the full statement.  What is
-   proved towards it is (2): under the stated conditions no byte can be stuck
+   schedules.  It is NOT proved in this generality (all reachable non-stale states); it is
+   kept here as the full statement, and it IS proved for the clean states of (3d) below
+   (c01_eventual_delivery_full_clean: all states in which no frame or unsent byte of an older
+   incarnation of an identifier can still meet a newer one; in particular all states in which no
+   identifier has been used twice).  What is
+   proved towards it in general is (2): under the stated conditions no byte can be stuck
    anywhere but in one of the four places of the pipeline, each of which is drained
    by an enabled step.  The correspondence harness checks delivery at quiescence on
    every generated schedule. *)
@@ -100,6 +104,106 @@ Theorem c01_eventual_delivery :
                 (s_fault (pS (cl w' f)) = false -> app_written w' f = dst_read w f))).
 Proof. exact d_c01_eventual_delivery. Qed.
 Print Assumptions c01_eventual_delivery.
+
+(* (3d) The escape clauses of (3c), removed (Proofs/Stream_drain_clean.v).  "Or a stale delivery
+   happened" cannot simply be dropped: the drain accepts no connection, but a frame of an OLDER
+   incarnation of an identifier may already be on the way (or unsent in a socket buffer) while the
+   identifier is registered for a NEWER one — with MAX_CHANNEL = 1 nine micro-steps reach such a state. *)
+Theorem c01_drain_unconditional_refuted :
+  ~ (forall maxc lbs evs w, run (world0 maxc lbs) evs = Ok w -> w_stale w = false ->
+       match run w (drain_of w) with
+       | Ok w' => w_stale w' = false /\ quiescentb w' = true
+       | Crash _ => False
+       end).
+Proof. exact eager_drain_unconditional_refuted. Qed.
+Print Assumptions c01_drain_unconditional_refuted.
+
+(* ... it holds under the boolean hypothesis Stream_drain_clean.drain_cleanb w: for all flows g < h
+   of the client that share their identifier, (the client's end of h is closed, or nothing of g is on
+   the way to the client and the server's end of g is mute) and (the server's end of h exists and is
+   closed, or nothing of g is behind the CONNECT of h on the way to the server and the client's end of
+   g is mute) — mute: socket buffer empty, no EOF or STOP_SENDING left to send.  States in which no
+   identifier has been used twice (no_reuseb) satisfy it.  From every such reachable state the explicit
+   schedule drain_of w is eager, never raises, makes NO stale delivery and ends strictly quiescent. *)
+Theorem c01_drain_clean :
+  forall maxc lbs evs w, run (world0 maxc lbs) evs = Ok w -> w_stale w = false -> drain_cleanb w = true ->
+  Forall eager_event (drain_of w) /\
+  match run w (drain_of w) with
+  | Ok w' => w_stale w' = false /\ quiescent_eagerb w' = true
+  | Crash _ => False
+  end.
+Proof. exact eager_drain_clean. Qed.
+Print Assumptions c01_drain_clean.
+
+Theorem c01_drain_no_reuse :
+  forall maxc lbs evs w, run (world0 maxc lbs) evs = Ok w -> w_stale w = false -> no_reuseb w = true ->
+  Forall eager_event (drain_of w) /\
+  match run w (drain_of w) with
+  | Ok w' => w_stale w' = false /\ quiescent_eagerb w' = true
+  | Crash _ => False
+  end.
+Proof. exact eager_drain_no_reuse. Qed.
+Print Assumptions c01_drain_no_reuse.
+
+(* ... in fact NO schedule of eager events leads from such a state to a stale delivery (and the
+   hypothesis is preserved), nor does it set the failure flag of any flow end: the second escape
+   clause ("unless that socket failed" DURING the drain) is empty — the eager answers never fail,
+   and the one failure the code produces by itself, EPIPE on a write after shutdown(SHUT_WR), needs
+   bytes buffered for a cleanly shut socket, which never exist. *)
+Theorem c01_eager_never_stale :
+  forall maxc lbs evs w sched w',
+  run (world0 maxc lbs) evs = Ok w -> w_stale w = false -> drain_cleanb w = true ->
+  Forall eager_event sched -> run w sched = Ok w' -> w_stale w' = false /\ drain_cleanb w' = true.
+Proof. exact eager_never_stale. Qed.
+Print Assumptions c01_eager_never_stale.
+
+Theorem c01_eager_no_new_fault :
+  forall maxc lbs evs w sched w',
+  run (world0 maxc lbs) evs = Ok w -> w_stale w = false -> drain_cleanb w = true ->
+  Forall eager_event sched -> run w sched = Ok w' -> forall sd g, fault_of w' sd g = fault_of w sd g.
+Proof. exact eager_no_new_fault. Qed.
+Print Assumptions c01_eager_no_new_fault.
+
+(* eventual delivery without escape clause: every byte read from the application before the drain
+   has been handed to the destination socket after it, and vice versa, unless a call on the receiving
+   socket had failed BEFORE the drain (abort of that endpoint) *)
+Theorem c01_eventual_delivery_clean :
+  forall maxc lbs evs w, run (world0 maxc lbs) evs = Ok w -> w_stale w = false -> drain_cleanb w = true ->
+  exists w', Forall eager_event (drain_of w) /\ run w (drain_of w) = Ok w' /\
+    w_stale w' = false /\ quiescent_eagerb w' = true /\
+    forall f, (s_fault (pS (sv w f)) = false -> dst_written w' f = app_read w f) /\
+              (s_fault (pS (cl w f)) = false -> app_written w' f = dst_read w f).
+Proof. exact dc_c01_eventual_delivery. Qed.
+Print Assumptions c01_eventual_delivery_clean.
+
+(* hence the full statement c01_eventual_delivery_full, for the clean states *)
+Theorem c01_eventual_delivery_full_clean :
+  forall maxc lbs evs w f, run (world0 maxc lbs) evs = Ok w -> w_stale w = false -> drain_cleanb w = true ->
+  vwfault (view_of w Client f) = false ->
+  exists evs' w', run w evs' = Ok w' /\ dst_written w' f = app_read w f.
+Proof.
+  intros maxc lbs evs w f Hr Hst Hc Hf.
+  destruct (dc_c01_eventual_delivery maxc lbs evs w Hr Hst Hc) as (w' & _ & Hrun & _ & _ & Hd).
+  exists (drain_of w), w'. split; [exact Hrun|]. apply (proj1 (Hd f)). exact Hf.
+Qed.
+Print Assumptions c01_eventual_delivery_full_clean.
+
+(* non-vacuity WITH identifier re-use (MAX_CHANNEL = 1): the application resets flow 0, flow 1 takes
+   identifier 1 at once and has read "x"; the state is clean, the drain delivers "x" *)
+Example c01_ex_reuse_clean :
+  match run (world0 1 32768) dc_reuse with
+  | Ok w =>
+    w_stale w = false /\ quiescentb w = false /\ no_reuseb w = false /\ reuses w 0 1 = true /\
+    drain_cleanb w = true /\ closedo (sv w 0) = false /\ sv w 1 = None /\ length (drain_of w) = 15%nat /\
+    match run w (drain_of w) with
+    | Ok w' => w_stale w' = false /\ quiescent_eagerb w' = true /\ drain_cleanb w' = true /\
+               closedo (sv w' 0) = true /\ dst_written w 1 = [] /\ dst_written w' 1 = dc_x /\
+               fault_of w' Server 1 = false
+    | Crash _ => False
+    end
+  | Crash _ => False
+  end.
+Proof. exact dc_reuse_clean. Qed.
 
 Example c01_ex_drain :
   match run (world0 65535 32768) d_pending with
